@@ -63,31 +63,26 @@ def corruptions():
     ]
 
 
-def selftest(events, wd):
-    """Binding: good recorded lines stay accepted, each single-field corruption is rejected with its reason."""
-    lines, expect = [], []
+SELF = 900000      # scenario numbers of the corrupted lines of the binding self-test
+
+
+def selftest_lines(events):
+    """Binding: good recorded lines stay accepted, each single-field corruption must be rejected with its reason.
+    Returns the lines to append to the trace and {sc: expected reason}."""
+    lines, want = [], {}
     for name, pred, mut, reason in corruptions():
         src = next((e for e in events if pred(e)), None)
         if src is None:
             raise vlib.Infra("binding self-test: no recorded line suits corruption %s" % name)
-        lines.append(src)                      # the good line itself must be accepted
         bad = copy.deepcopy(src)
         mut(bad)
-        bad["sc"] = 900000 + len(expect)
+        bad["sc"] = SELF + len(want)
         if name != "layer-type":               # a distinct tag per line (FlowTrace keeps one example per op/reason/lt;
             bad["lt"] = "self-%s" % name       # the judge reads lt only for the endpoint type of known layers)
+        lines.append(src)                      # the good line itself must (again) be accepted
         lines.append(bad)
-        expect.append((name, bad["sc"], reason))
-    tp = os.path.join(wd, "selftest.ndjson")
-    with open(tp, "w") as f:
-        for e in lines:
-            f.write(json.dumps(e) + "\n")
-    v = vlib.validate_trace("FlowTrace", tp, "c17self", timeout=600)
-    got = {b["sc"]: b["reason"] for b in v["bad"]}
-    want = {sc: r for _, sc, r in expect}
-    if v["nbad"] != len(expect) or got != want:
-        raise vlib.Infra("binding self-test failed: expected rejections %s, trace spec gave %s (nbad=%d)" % (want, got, v["nbad"]))
-    return {"corruptions": len(expect), "rejected": v["nbad"], "reasons": sorted(set(want.values()))}
+        want[bad["sc"]] = reason
+    return lines, want
 
 
 def run(ctx):
@@ -124,9 +119,12 @@ def run(ctx):
     if missing and not st.get("hang"):
         raise vlib.Infra("no flow observed for layer types %s (corpus or decoders broken)" % sorted(missing))
     events = vlib.read_ndjson(tp)
+    self_lines, want = selftest_lines(events)
+    allv = events + self_lines                 # the self-test rides at the end of the last chunk
     tstates = nbad = 0
-    for ci in range(0, len(events), CHUNK):
-        part = events[ci:ci + CHUNK]
+    got = {}
+    for ci in range(0, len(allv), CHUNK):
+        part = allv[ci:ci + CHUNK]
         cp = os.path.join(wd, "chunk.ndjson")
         with open(cp, "w") as f:
             for e in part:
@@ -135,13 +133,22 @@ def run(ctx):
         tstates += v["states"]
         nbad += v["nbad"]
         for b in v["bad"]:
+            if b["sc"] >= SELF:
+                got[b["sc"]] = b["reason"]
+                nbad -= 1
+                continue
             ev = part[b["line"] - 1]
             V.reject({"reason": b["reason"], "op": b["op"], "layer": b["lt"]},
                      {"bad": b, "event": ev, "rerun": "harness/cmd/flow -scenarios <FlowGen export> -seed %d -rand .. -corpus -mut .." % ctx.seed})
     log("[C17] trace validation: %d lines, %d rejected" % (len(events), nbad))
-    self = selftest(events, wd) if nbad == 0 else {"skipped": "trace has rejections"}
     if nbad == 0:
-        log("[C17] binding self-test: %d single-field corruptions, all rejected (%d reasons)" % (self["corruptions"], len(self["reasons"])))
+        if got != want:
+            raise vlib.Infra("binding self-test failed: expected rejections %s, trace spec gave %s" % (want, got))
+        self = {"corruptions": len(want), "rejected": len(got), "reasons": sorted(set(want.values()))}
+        log("[C17] binding self-test: %d single-field corruptions of good lines, all rejected for the expected reason (%d reasons)"
+            % (len(want), len(self["reasons"])))
+    else:
+        self = {"skipped": "trace has rejections"}
     rc = V.finish()
     samples, seen = [], set()
     for e in events:
